@@ -43,6 +43,10 @@ type Case struct {
 	// oracle works on an independent copy made before the call; after every call the whole backing
 	// memory (elements and spare capacity, coordinate arrays and outer slices) must be bit-identical.
 	Layout string `json:"layout,omitempty"`
+	// Spec (kind "large"): a rung of the size ladder, rebuilt procedurally (large_test.go).
+	Spec *LargeSpec `json:"spec,omitempty"`
+	// Alias (kind "aliased"): rings that share memory with each other (alias_test.go).
+	Alias *AliasSpec `json:"alias,omitempty"`
 }
 
 // placer maps lattice coordinates to the coordinates given to orb.
@@ -317,6 +321,19 @@ var modeName = []string{"as given", "every ring reversed", "every ring started o
 // ---------------------------------------------------------------- the check
 
 func checkCase(c Case) error {
+	if c.Kind == "large" {
+		if c.Spec == nil {
+			return fmt.Errorf("harness: large case without a spec")
+		}
+		_, err := checkLarge(*c.Spec)
+		return err
+	}
+	if c.Kind == "aliased" {
+		if c.Alias == nil {
+			return fmt.Errorf("harness: aliased case without a spec")
+		}
+		return checkAliased(c)
+	}
 	mp := c.mp()
 	if len(c.Queries) == 0 {
 		return fmt.Errorf("harness: case without queries")
@@ -403,6 +420,7 @@ func checkCase(c Case) error {
 				return fmt.Errorf("MultiPolygonContains(one-member %v, %v) = %v, want %v", ring, q, got, want)
 			}
 		}
+		noteSpare(append(guards, gp, gm)...)
 	case "polygon":
 		if len(mp) != 1 {
 			return fmt.Errorf("harness: polygon case needs exactly one polygon")
@@ -424,6 +442,7 @@ func checkCase(c Case) error {
 					return fmt.Errorf("PolygonContains(%v, %v) = %v, want %v (%s; %s; %s layout)", poly, q, got, want, describePolygon(imp[0], iqs[k]), modeName[mode], layoutName(c.Layout))
 				}
 			}
+			noteSpare(gd)
 		}
 	case "multipolygon":
 		for mode := 0; mode < 4; mode++ {
@@ -455,11 +474,24 @@ func checkCase(c Case) error {
 					return fmt.Errorf("MultiPolygonContains(%v, %v) = %v, want %v (%s; %s layout)", m, q, got, want, name, layoutName(c.Layout))
 				}
 			}
+			noteSpare(gd)
 		}
 	default:
 		return fmt.Errorf("harness: unknown kind %q", c.Kind)
 	}
 	return nil
+}
+
+// noteSpare counts (never fails on) a write into the spare capacity of the value handed to orb: a
+// fact about memory layout, not a contradiction of the property (soundness rule of round L). A change
+// of an element within len is a failure and is reported by Guard.Check.
+func noteSpare(gds ...*layout.Guard) {
+	for _, gd := range gds {
+		if gd.SpareNote() != "" {
+			stats.Class("layout-note: spare capacity of the argument was written (counted, not a violation)")
+			return
+		}
+	}
 }
 
 func layoutName(l string) string {
@@ -746,7 +778,7 @@ func TestPropContains(t *testing.T) {
 	stats.Assume("cases are placed exactly at (v + off) * 2^k with k in [-40, 40] and off in {0, +-2^20, +-2^30, 2^30+0.5, -(2^30+2^10), 3*2^28} per axis; the oracle decides on the unplaced lattice")
 	stats.Assume("the value handed to orb is laid out shared (all rings consecutive windows of one buffer, len < cap) / spare (own arrays with sentinel slots) / plain in 40/40/20 % of the cases, outer slices with spare sentinel entries; the containment tests must leave all of that memory bit-identical")
 	stats.Assume("rings have >= 3 listed vertices (repeats allowed), polygons have an outer ring; Polygon{} and rings without vertices are outside the quantifier")
-	stats.Check(t, 150000, 4000000, func(rt *rapid.T) {
+	stats.Check(t, 120000, 4000000, func(rt *rapid.T) {
 		c, _ := drawCase(rt)
 		stats.Try(rt, "TestPropContains", c, func() error { return checkCase(c) })
 	})
@@ -1225,6 +1257,7 @@ func TestEnumPolygons(t *testing.T) {
 				return nil
 			})
 			stats.Eval("TestEnumPolygons", int64(4*nq))
+			noteSpare(gd1, gd2, gd3, gd4)
 			if err != nil {
 				c := caseOf("polygon", orb.MultiPolygon{p2}, l.qs)
 				stats.TryT(t, "TestEnumPolygons", c, func() error { return err })
